@@ -29,9 +29,10 @@ class Ctx:
         """one obligation = one rule instance.  key must not contain line numbers."""
         self.obs.append({"rule": rule, "key": key, "ok": bool(ok), "detail": detail, "where": where, "sites": sites})
         self.sites += sites
-        if sample is not None and len(self.samples) < 40:
+        n_rule = sum(1 for s in self.samples if s.get("rule") == rule)
+        if sample is not None and len(self.samples) < 80:
             self.samples.append(sample)
-        elif ok and len(self.samples) < 40 and detail:
+        elif ok and n_rule < 4 and len(self.samples) < 80 and detail and not key.startswith("ANCHOR:"):
             self.samples.append({"rule": rule, "instance": key, "detail": detail[:400], "where": where})
         return ok
 
@@ -77,7 +78,9 @@ class Ctx:
                 "rule": "one obligation per rule instance (function/callee/field/table entry); evaluations = program "
                         "sites (call sites, field accesses, CFG paths, table rows) examined; distinct_nontrivial = "
                         "distinct (rule, instance) pairs that matched at least one site",
-                "samples": self.samples[:40] or [{"note": "no instance matched"}],
+                "samples": self.samples[:80] or [{"note": "no instance matched"}],
+                "all_obligations": [{"rule": o["rule"], "instance": o["key"], "ok": o["ok"], "detail": o["detail"][:240],
+                                     "where": o["where"]} for o in self.obs],
                 "rules": rules,
                 "functions_analysed": len(self.functions),
                 "decided_clauses": self.clauses,
